@@ -57,6 +57,16 @@ theorem generated_table_ok : TableOk table = true := by decide
 /-- `newError` has the expected two-branch shape. -/
 theorem generated_newError_ok : newErrorShapeKnown = true := by decide
 
+/-- The error constructor is asked about the repository the call acts on: the method's `repo`
+parameter, the repository written to (`toRepo`) for a mount, and no repository for the catalogue. -/
+def errRepoOk (r : Row) : Bool :=
+  if r.params.contains "repo" then r.errRepo == "repo"
+  else if r.params.contains "toRepo" then r.errRepo == "toRepo"
+  else r.errRepo == "\"\""
+
+theorem generated_error_names_the_repository_acted_on :
+    table.all errRepoOk = true ∧ table.all (fun r => r.errName == r.method) = true := by decide
+
 /-- The table has exactly one row per method of `ociregistry.Interface`. -/
 theorem generated_covers_interface :
     (table.map (·.method)).Nodup ∧
